@@ -207,5 +207,12 @@ def run(repo, check):
     check.run_rule(rule_r1, repo)
     check.run_rule(rule_r2, repo)
     check.run_rule(rule_r3, repo)
+    from sa.rules import c07
+    r4 = c07.rule_r6(repo)
+    r4.rule = 'C06.R4'
+    r4.title = 'a bitmap is built from the bits of the subset being processed, never from subset 0 (shared with C07.R6)'
+    for f in r4.findings:
+        f.rule = 'C06.R4'
+    check.add(r4)
     check.assumptions = ['the receiver named `state` denotes the CoderState (confirmed by reading; DESIGN 2.2)',
                          'registers are attributes of CoderState / TemplateData; no module-level mutable state is used by the walk (checked under C13)']
